@@ -347,7 +347,7 @@ static std::string run_cells(const std::vector<std::string> &line) {
       emit(std::string(R.is_smashed() ? "S" : "N") + os.str() + show_cells(R.get_offset_map().get_all_cells(), false));
     }
     else if (op == "cover") {
-      // covers_all_offsets(all cells of m[w], [lo,hi], esz): only with fixes/arrays-4
+      // covers_all_offsets(all cells of m[w], [lo,hi], esz): only with fixes/arrays-5
       long w = k.nexti(); std::string lo = k.next(), hi = k.next(); unsigned long long esz = std::stoull(k.next());
       itv_t ii(lo == "-oo" ? bound<z_number>::minus_infinity() : bound<z_number>(z_number(lo)),
                hi == "+oo" ? bound<z_number>::plus_infinity() : bound<z_number>(z_number(hi)));
